@@ -42,7 +42,8 @@ func init() {
 			"the in-memory reader resolves a location like a file system (path.Clean before lookup)",
 			"value objects are generated in the marshaller's normal form, so that Value marshals back to the raw object",
 			"IsExternalRefsAllowed = true",
-			"RefPath() is recorded but not compared (it depends on visiting order, see report)",
+			"no null members and no parameter with both schema and content are generated (the loader rejects them; below an untyped reference target it swallows the error and leaves the reference unresolved)",
+			"RefPath() is not compared (for a reference met first through a backtrack callback it depends on the visiting order)",
 		},
 	})
 }
@@ -632,9 +633,9 @@ func c02Spell(from, to string, style int) string {
 
 func genC02(ctx *hx.Ctx, emit func(hx.Case)) {
 	c02Exhaustive(ctx, emit)
-	n := 1500
+	n := 3000
 	if ctx.Thorough() {
-		n = 15000
+		n = 30000
 	}
 	for i := 0; i < n; i++ {
 		emit(c02Random(ctx.Rng))
